@@ -208,6 +208,44 @@ func (r *persistRunner) Exec(line string) string {
 		delete(r.ref, string(k))
 		r.tag("rm")
 		return r.dump("after rm " + hx(k))
+	case "tickput":
+		// a Put issued WHILE the timer flush of leveldb.DB sits between its LevelDB write and the batch reset: the put must
+		// neither be lost nor resurrect anything — the outcome is that of `tick` followed by `put` (a flush does not change
+		// the logical map). On the unchanged code the Put blocks on the batch mutex until the flush has finished.
+		k := unhx(t[1])
+		var v []byte
+		if t[2] != "-" && t[2] != "nil" {
+			v = unhx(t[2])
+		} else if t[2] == "-" {
+			v = []byte{}
+		}
+		done := make(chan error, 1)
+		reached := false
+		if len(r.gates) == 1 {
+			reached = letTimerFlushWithWindow(r.gates[0], 30*time.Second, func() {
+				go func() { done <- r.p.Put(k, v) }()
+				time.Sleep(60 * time.Millisecond)
+			})
+		}
+		var err error
+		if reached {
+			select {
+			case err = <-done:
+			case <-time.After(20 * time.Second):
+				return "err:put-during-timer-flush-never-returned"
+			}
+			r.tag("put-in-timer-window")
+		} else {
+			r.tag("timer-window-not-reached")
+			err = r.p.Put(k, v)
+		}
+		if err != nil {
+			return "err:" + err.Error()
+		}
+		cp := make([]byte, len(v))
+		copy(cp, v)
+		r.ref[string(k)] = cp
+		return r.dump("after put-during-timer-flush " + hx(k))
 	case "tick":
 		// let exactly one timer flush through on every underlying persister
 		var wg sync.WaitGroup
@@ -271,6 +309,31 @@ func (persistComp) Gen(rng *rand.Rand, tier string) [][]string {
 		nh, steps, nTick = 600, 80, 60
 	}
 	var hs [][]string
+	// directed: writes issued while a timer flush of leveldb.DB is between its LevelDB write and the batch reset
+	nDirected := 2
+	if tier == "thorough" {
+		nDirected = 12
+	}
+	for d := 0; d < nDirected; d++ {
+		batch := pick(rng, 2, 3, 5, 100)
+		h := []string{fmt.Sprintf("begin persist kind=db shards=0 batch=%d delay=1 keys=a1,a2,a3", batch)}
+		for round := 0; round < 3; round++ {
+			for s := 0; s < 1+rng.Intn(3); s++ {
+				k := pick(rng, "a1", "a2", "a3")
+				if rng.Intn(4) == 0 {
+					h = append(h, "rm "+k)
+				} else {
+					h = append(h, fmt.Sprintf("put %s %02x", k, rng.Intn(256)))
+				}
+			}
+			h = append(h, fmt.Sprintf("tickput %s %02x%02x", pick(rng, "a1", "a2", "a3"), d, round))
+			if rng.Intn(2) == 0 {
+				h = append(h, "range")
+			}
+			h = append(h, "reopen", "range")
+		}
+		hs = append(hs, h)
+	}
 	for i := 0; i < nh; i++ {
 		kind := pick(rng, "db", "db", "serial", "serial", "mem")
 		shards := pick(rng, 0, 0, 0, 2, 3, 5)
@@ -316,7 +379,12 @@ func (persistComp) Gen(rng *rand.Rand, tier string) [][]string {
 					if rng.Intn(2) == 0 {
 						h = append(h, "rm "+k)
 					}
-					h = append(h, "tick", "range")
+					if kind == "db" && shards == 0 && rng.Intn(2) == 0 {
+						v := pick(rng, "-", "aa", fmt.Sprintf("%02x%02x", s, rng.Intn(256)))
+						h = append(h, fmt.Sprintf("tickput %s %s", k, v), "reopen", "range")
+					} else {
+						h = append(h, "tick", "range")
+					}
 				} else if kind == "mem" || batch == 1 {
 					h = append(h, "range")
 				}
